@@ -8,6 +8,7 @@ import Nq.Basic
 import Nq.Quote
 import Nq.Token822
 import Nq.SmtpAddr
+import Nq.Gen.Hfield
 
 namespace Nq.Spec.Addr
 open Nq Nq.Quote Nq.Token822
@@ -117,5 +118,42 @@ def splitLF (m : Bytes) : List Bytes :=
 /-- names of the fields present in the header of `m` -/
 def fieldNames (m : Bytes) : List Bytes :=
   (headerLines (splitLF m)).filterMap (fun l => if l.head? == some SP || l.head? == some TAB then none else fieldName l)
+
+/-! ### `hfield_known`, declaratively (audit repair: links the model's `hfieldKnown` to the independent matcher) -/
+
+/-- index (from `i`) of a lower-cased field name in a table of names; 0 = not in the table -/
+def knownIndexFrom (n : Bytes) : Nat → List Bytes → Nat
+  | _, [] => 0
+  | i, t :: ts => if n = t then i else knownIndexFrom n (i + 1) ts
+
+/-- the H_* number of the field whose (independently extracted, lower-cased) name is in hfield.c's table
+`hname[]`; 0 for a line without a colon or with an unknown name -/
+def knownField (line : Bytes) : Nat :=
+  match fieldName line with
+  | some n => knownIndexFrom n 1 (Gen.hname.drop 1)
+  | none => 0
+
+/-- the names of the fields that must never reach the output header -/
+def hiddenFields : List Bytes :=
+  [[98, 99, 99], [114, 101, 115, 101, 110, 116, 45, 98, 99, 99], [114, 101, 116, 117, 114, 110, 45, 112, 97, 116, 104],
+   [99, 111, 110, 116, 101, 110, 116, 45, 108, 101, 110, 103, 116, 104]]
+
+/-- the names of the fields that feed the envelope: To Cc Bcc Apparently-To / Resent-To Resent-Cc Resent-Bcc -/
+def rcptFields : List Bytes := [[116, 111], [99, 99], [98, 99, 99], [97, 112, 112, 97, 114, 101, 110, 116, 108, 121, 45, 116, 111]]
+def resentRcptFields : List Bytes :=
+  [[114, 101, 115, 101, 110, 116, 45, 116, 111], [114, 101, 115, 101, 110, 116, 45, 99, 99], [114, 101, 115, 101, 110, 116, 45, 98, 99, 99]]
+
+/-- the names of the eight Resent- fields that make a message "resent" -/
+def resentFields : List Bytes :=
+  [[114, 101, 115, 101, 110, 116, 45, 115, 101, 110, 100, 101, 114], [114, 101, 115, 101, 110, 116, 45, 102, 114, 111, 109],
+   [114, 101, 115, 101, 110, 116, 45, 114, 101, 112, 108, 121, 45, 116, 111], [114, 101, 115, 101, 110, 116, 45, 116, 111],
+   [114, 101, 115, 101, 110, 116, 45, 99, 99], [114, 101, 115, 101, 110, 116, 45, 98, 99, 99],
+   [114, 101, 115, 101, 110, 116, 45, 100, 97, 116, 101], [114, 101, 115, 101, 110, 116, 45, 109, 101, 115, 115, 97, 103, 101, 45, 105, 100]]
+
+/-- the field's own name (independent matcher) is one of `names` -/
+def nameIn (names : List Bytes) (line : Bytes) : Bool :=
+  match fieldName line with
+  | some n => names.contains n
+  | none => false
 
 end Nq.Spec.Addr
